@@ -30,7 +30,9 @@ def gen_c10(rng, idx, tier, faults):
     else:
         n = m = rng.randint(4, 12)
     xs = {"kind": kind, "shape": [n, m], "seed": _seed(rng), "storage": "C"}
-    if rng.random() < 0.07:
+    if rng.random() < 0.07 and kind != "offset":
+        # (not for data with a large common offset: single precision keeps only ~3 of its
+        # informative digits, every score is then dominated by cancellation)
         # the caller's X in single precision (y stays double): the numerical rank is then a
         # statement about float32; exact rescaling keeps the spectrum away from the absolute cut
         xs["cast"] = "float32"
@@ -555,6 +557,12 @@ class RidgeWorld:
             self.count("out_of_domain_near_rank_cut")
             return
         if epsX != EPS:
+            sd = X64.std(axis=0)
+            if np.any(np.abs(X64.mean(axis=0)) > 1e2 * np.where(sd > 0, sd, np.inf)):
+                # single-precision data with a large common offset keeps ~3 informative digits:
+                # every score is dominated by cancellation (judged in double precision only)
+                self.count("out_of_domain_single_precision_offset")
+                return
             self.stats["probes"]["single_precision_X_judged"] += 1
         if len(f1) < 1 or len(f2) < 1:
             self.count("out_of_domain_empty_fold")
@@ -607,7 +615,9 @@ class RidgeWorld:
                     self.violate("cv_value_wrong", f"alpha[{i}]={alphas[i]}: cv_values_ {a} vs explicit two-fold {b} | {desc}")
                     return
                 continue
-            if abs(a - b) > tol:
+            # ... plus the relative allowance on the value itself (an extrapolating fold can
+            # score orders of magnitude beyond the scale of y)
+            if abs(a - b) > tol + rel * abs(b):
                 self.violate(
                     "cv_value_wrong",
                     f"alpha[{i}]={alphas[i]} (scaled {ref['scaled'][i]:.6g}): cv_values_ {a!r} vs explicit two-fold value {b!r} (tol {tol:.3g}) | {desc}",
@@ -624,13 +634,14 @@ class RidgeWorld:
             self.violate("alpha_not_in_grid", f"alpha_={alpha_} not in {alphas} | {desc}")
             return
         if not any(amb):
-            if not any(fin[i] >= fin.max() - 2 * tol for i in idxs):
+            tolb = 2 * tol + 2 * rel * abs(float(fin.max())) if np.isfinite(fin.max()) else 2 * tol
+            if not any(fin[i] >= fin.max() - tolb for i in idxs):
                 self.violate(
                     "alpha_not_best",
                     f"alpha_={alpha_} has explicit CV value {max(fin[i] for i in idxs)!r}, best is {fin.max()!r} at {alphas[int(np.argmax(fin))]} | {desc}",
                 )
                 return
-            if abs(best - fin.max()) > 2 * tol:
+            if abs(best - fin.max()) > tolb:
                 self.violate("best_score_wrong", f"best_score_={best!r} vs {fin.max()!r} | {desc}")
                 return
             self.count("alpha_checked")
